@@ -213,6 +213,7 @@ package policy
 
 //@ func (*BaseDelayablePolicy).ComputeDelay
 //@   requires d != nil
+//@   requires [C14.user_callback_gets_copy] (exec != nil && d.DelayFunc != nil) ==> userCopy(exec)
 //@   ensures [C13.computedelay] (exec != nil && d.DelayFunc != nil) ==> ncalls(d.DelayFunc) == 1 && result == ret(d.DelayFunc, 1) && arg(d.DelayFunc, 1, 0) == exec
 //@   ensures [C13.computedelay.none] !(exec != nil && d.DelayFunc != nil) ==> result == -1 && ncalls(d.DelayFunc) == 0
 //@   havoc
@@ -227,9 +228,10 @@ package policy
 //@   modifies nothing
 //@   ensures result_0 ==> result_1 != nil
 //@   ensures !result_0 ==> result_1 == nil
+// (mirrors the contract the only implementation, failsafe.(*execution).CopyWithResult, is verified against)
 //@ extfunc github.com/failsafe-go/failsafe-go/policy.ExecutionInternal.CopyWithResult
 //@   modifies nothing
-//@   ensures result != nil
+//@   ensures result_0 != nil && userCopy(result_0)
 // Condition slices are only appended to while building; their elements never change afterwards.
 //@ frozen elem:cell:func(result R, err error) bool
 //@ frozen elem:cell:func(A, B) bool
